@@ -42,7 +42,7 @@ CLAIMED = {
              'boundary is outside). N<=4 (start_end), 2x2/3x3 (high_low), N<=2 (ellipse).',
         ref='4/C08', technique=TECH + '; real arithmetic with uninterpreted transcendental functions'),
     'C14': dict(
-        text='The real TEXT parser runs on a symbolic string (<=7/11 characters over {delimiter, '
+        text='The real TEXT parser runs on a symbolic string (<=8/11 characters over {delimiter, '
              'two symbols}) and must agree with an independent left-to-right tokenizer or raise '
              'ValueError; round trips of tokens with symbolic interior/trailing delimiter runs; '
              'FCSFile merge/ANALYSIS call sites with symbolic offsets.',
